@@ -21,12 +21,14 @@ from harness.common import Failure, lean_run, rat, ratlist, intlist
 
 PROP_MODULES = ["ArmiVerif.Props.C02"]
 PARTIAL = ("floating-point rounding is outside the theorems (comparison tolerance 1e-9 relative); volumes of "
-           "components are inputs of the model (shape areas are C03's); lumped-fission-product expansion and "
-           "composition-dependent thermal expansion inside Component.updateNumberDensities are not modelled (no "
-           "library material has the latter); 'assembly volume = sum of block volumes' carries the hypothesis of "
-           "equal block areas (finding assembly-volume-first-block-area); component-level setMass/addMass "
-           "read-back carries the hypothesis that the parent block is not cut by symmetry lines (finding "
-           "component-setmass-symmetry-cut-block)")
+           "components are inputs of the model (shape areas are C03's); lumped-fission-product expansion, element / list "
+           "nuclide specifiers (checked by the oracle only) and composition-dependent thermal expansion inside "
+           "Component.updateNumberDensities are not modelled (no library material has the latter); mass = density x "
+           "volume and the mass read-backs carry the hypothesis 'own volume = mass-carrying volume' (assembly: equal "
+           "block areas, finding assembly-volume-first-block-area; component: parent block not cut by symmetry lines, "
+           "finding component-setmass-symmetry-cut-block); Component.density() of an all-zero composition is outside "
+           "the model (finding component-density-all-zero-composition); component-level setNumberDensities(wipe) and "
+           "changeNDensByFactor are modelled and compared but carry no theorem (they are the definition)")
 ASSUMPTIONS = [
     "component volumes, symmetry factors, block areas/heights, atomic weights and units constants are read from the "
     "real objects and are parameters of the model",
